@@ -34,6 +34,33 @@ func c03Marshal(n tv.Node) (b []byte, panicked string) {
 	return ttlv.MarshalTTLV(&v), ""
 }
 
+// c03Retained: an encoding the library has handed out stays what it was while the library goes on
+// encoding other values (here and on other goroutines): "every binary encoding produced by the
+// library" is judged when it is USED, not only in the instant it is returned.
+func c03Retained(n tv.Node) (overwritten string) {
+	defer func() { _ = recover() }()
+	v := tv.ToValue(n)
+	b := ttlv.MarshalTTLV(&v)
+	keep := bytes.Clone(b)
+	noise := ttlv.Value{Tag: 0x420002, Value: bytes.Repeat([]byte{0xEE}, len(b)+24)}
+	done := make(chan struct{})
+	go func() {
+		defer close(done)
+		defer func() { _ = recover() }()
+		for i := 0; i < 3; i++ {
+			_ = ttlv.MarshalTTLV(&noise)
+		}
+	}()
+	for i := 0; i < 3; i++ {
+		_ = ttlv.MarshalTTLV(&noise)
+	}
+	<-done
+	if !bytes.Equal(b, keep) {
+		return fmt.Sprintf("%x", b)
+	}
+	return ""
+}
+
 // c03Reused: the same tree on ONE encoder reused (after Clear) for every tree of the run: the output
 // is still the conformant encoding (bit for bit what a new encoder writes: padding included).
 var c03Shared = ttlv.NewTTLVEncoder()
@@ -116,6 +143,11 @@ func driveC03(c *h.Ctx) error {
 		caseJSON["encoded_hex"] = hex.EncodeToString(b)
 		if b2, p2 := c03MarshalReused(n); p2 != "" || !bytes.Equal(b, b2) {
 			c.Fail("C03/reused-encoder-output-differs", fmt.Sprintf("on a reused (cleared) encoder the encoding is %x %s", b2, p2), caseJSON)
+		}
+		if i%4 == 0 || c.Replay != nil {
+			if ow := c03Retained(n); ow != "" {
+				c.Fail("C03/encoding-overwritten-by-later-encoding", "the bytes returned by MarshalTTLV changed while other values were encoded: now "+ow, caseJSON)
+			}
 		}
 		ns, err := tv.SpecParse(b)
 		switch {
